@@ -191,7 +191,9 @@ class Sim13:
         over = {"peering.lifetime": int(spec.get("lifetime", 60))}
         over.update(self.sc.get("settings", {}))
         settings = runner.default_settings(**over)
-        ident = spec.get("identity", name)
+        nth = sum(1 for i in self.incs if i["name"] == name)
+        # kopf's default identity is unique per process; with POD_ID (sticky) it survives restarts
+        ident = spec.get("identity", name if self.sc.get("sticky_identities") else (name if nth == 0 else f"{name}-r{nth}"))
         op = runner.Operator(self.cluster, self.build_registry(name), settings, identity=ident,
                              priority=int(spec.get("priority", 0)), peering_name=self.pname, standalone=False)
         self.live[name] = op
@@ -523,6 +525,19 @@ def installed(sim: Sim13) -> Iterator[None]:
 
     aiotasks.guard = guard  # type: ignore[assignment]
 
+    # ---- per-operator extra API latency for peering PATCHes (environment) -----------------------------
+    o_request = fakeapi.FakeSession.request
+    extra = {k: float(v) for k, v in (sim.sc.get("patch_latency") or {}).items()}
+
+    async def request(self: Any, method: str, url: str, *a: Any, **k: Any) -> Any:
+        if extra and method.upper() == "PATCH" and "/clusterkopfpeerings" in url:
+            d = extra.get(self.identity.split("#")[0].split("-r")[0], 0.0)
+            if d:
+                await asyncio.sleep(d)
+        return await o_request(self, method, url, *a, **k)
+
+    fakeapi.FakeSession.request = request  # type: ignore[assignment]
+
     # ---- watch close times -------------------------------------------------------------------------
     o_close = fakeapi.FakeResponse.close
 
@@ -548,6 +563,7 @@ def installed(sim: Sim13) -> Iterator[None]:
         peering.aiotime, peering.random, peering.asyncio = o_aiotime, o_random, o_asyncio  # type: ignore[assignment]
         processing.process_resource_event = o_pre  # type: ignore[assignment]
         fakeapi.FakeResponse.close = o_close  # type: ignore[assignment]
+        fakeapi.FakeSession.request = o_request  # type: ignore[assignment]
         aiotasks.guard = o_guard  # type: ignore[assignment]
 
 
